@@ -56,7 +56,7 @@ func bodyPathsFrom(h, entry *ssa.BasicBlock, preds []func(ssa.Instruction) bool,
 }
 
 func checkC20(c *Check) {
-	c.Explanation = "Decided over package provider/manifest: (R1) linearity of reply obligations — a submission received by the manager is appended to the request queue on every path; on every path through one iteration of the validation loop a request is either answered (send on its reply channel) or moved to the pending list, exactly once; both queues are cleared only right after a loop over that same queue that answers every element without early exit; (R2) exit and failure paths — the manager's loop exit passes through the function that answers everything outstanding, a failed chain fetch answers all queued requests, the fetch channel variable is reset on every path after its result was received (so a later submission can trigger a new fetch), and a submission that cannot be enqueued because the manager is stopping is answered; (R3) the reply channel has capacity >= 1 and Submit returns on the first of reply / context done / service done; (R4) the announcement is dominated by: leases held, chain data present, a validated manifest present, and carries the latest validated manifest and the fetched data; pending submissions are acknowledged only after the announcement loop; (R5) only manifests whose validation returned nil are recorded, and validation runs only with chain data present."
+	c.Explanation = "Decided over package provider/manifest: (R1) linearity of reply obligations — a submission received by the manager is appended to the request queue on every path; on every path through one iteration of the validation loop a request is either answered (send on its reply channel) or moved to the pending list, exactly once; both queues are cleared only right after a loop over that same queue that answers every element without early exit; (R2) exit and failure paths — the manager's loop exit passes through the function that answers everything outstanding, a failed chain fetch answers all queued requests, the fetch channel variable is reset on every path after its result was received (so a later submission can trigger a new fetch), and a submission that cannot be enqueued because the manager is stopping is answered; (R3) the reply channel has capacity >= 1 and Submit returns on the first of reply / context done / service done; (R4) the announcement is dominated by: leases held, chain data present, a validated manifest present, and carries the latest validated manifest and the fetched data; pending submissions are acknowledged only after the announcement loop; (R5) only manifests whose validation returned nil are recorded, and validation runs only with chain data present. The manager's inbox methods send to its loop without a default case."
 	c.NotDecided = "hang-freedom when a callee (hostname service, chain query) never returns"
 	l := c.L
 	pkg := "provider/manifest"
@@ -505,7 +505,7 @@ func (c *Check) leaseClosedRouting(rule string) {
 	okProv, okMgr := false, false
 	extra := ""
 	for _, a := range factsAt(rm.Block()) {
-		if a.If == nil || !(a.If.Block() == caseBlk || caseBlk.Dominates(a.If.Block())) {
+		if a.If == nil || !(a.If.Block() == caseBlk || domSame(caseBlk, a.If.Block())) {
 			continue
 		}
 		x, y := Sym(a.X), ""
